@@ -43,21 +43,36 @@ def run(R):
                   "anything not unsat there is re-decided with real bvmul")
     C = lambda u, args, o=None: R.call(h, u, args, opts=o)
 
-    def rel(name, inputs, mk, note="", lemmas=lambda: []):
+    def rel(name, inputs, mk, note="", lemmas=lambda: [], mk_int=None):
+        """abstract (MULW) first; if that is not unsat: the INT encoding (exact, finds counterexamples of multiplicative
+        laws in well under a second where bit-blasting a 64x64 multiplier does not finish), then precise BV"""
         def build(ab):
             o = E.Opts(mul_uf=True) if ab else E.Opts(wide_mul=True)
             calls, assume, goal = mk(o)
             return Ob(name, "verify", inputs, calls, assume, goal, note=note, portfolio=PF, abstract=ab,
                       extra_asserts=lemmas() if ab else [])
+
+        def build_int():
+            ins, calls, assume, goal = mk_int(E.Opts(int_mode=True))
+            ob2 = Ob(name, "verify", ins, calls, assume, goal, note=note + " [INT encoding]", portfolio=("z3", "cvc5"),
+                     timeout=60)
+            ob2.tag = "int"
+            ob2.fallback = lambda: build(False)
+            return ob2
         ob = build(True)
-        ob.fallback = lambda: build(False)
+        ob.fallback = build_int if mk_int is not None else (lambda: build(False))
         R._add(ob)
 
+    ai, bi = z3.Int("a"), z3.Int("b")
+    fin_i = lambda v: z3.And(v >= -M, v <= M)
     # commutativity, subtraction as addition of the negation
     c1, c2 = C("add", [a, b]), C("add_rev", [a, b])
     R.verify("add/commutative", [a, b], [c1, c2], Fab, c1.out == c2.out)
-    rel("mul/commutative", [a, b], lambda o: ([C("mul", [a, b], o), C("mul_rev", [a, b], o)], Fab, None) and
-        (lambda x, y: ([x, y], Fab, x.out == y.out))(C("mul", [a, b], o), C("mul_rev", [a, b], o)))
+    rel("mul/commutative", [a, b],
+        lambda o: (lambda x, y: ([x, y], Fab, x.out == y.out))(C("mul", [a, b], o), C("mul_rev", [a, b], o)),
+        note="a*b == b*a bit for bit, all finite pairs",
+        mk_int=lambda o: (lambda x, y: ([ai, bi], [x, y], z3.And(fin_i(ai), fin_i(bi)), x.out == y.out))(
+            C("mul", [ai, bi], o), C("mul_rev", [ai, bi], o)))
     c1, c2 = C("sub", [a, b]), C("add_neg", [a, b])
     R.verify("sub/equals-add-neg", [a, b], [c1, c2], Fab, c1.out == c2.out)
     c1 = C("sub_self", [a])
